@@ -106,10 +106,20 @@ pub struct Inner {
     pub panicked: bool,
     pub depth: usize,
     pub max_depth: usize,
+    /// C13: owner (sink number) of the top-level step in progress, per event / per decision
+    pub cur_owner: usize,
+    pub obs_own: Vec<usize>,
+    pub script_own: Vec<usize>,
+    /// component name -> name it would have if its owner were the only subscriber
+    pub norm: std::collections::HashMap<String, String>,
+    pub norm_cnt: std::collections::HashMap<(usize, String), usize>,
+    pub name_owner: std::collections::HashMap<String, usize>,
 }
 
 pub struct Env {
     inner: Mutex<Inner>,
+    /// run at the end of a run to break the Arc cycles between harness peers and crate closures
+    cleaners: Mutex<Vec<Box<dyn Fn() + Send + Sync>>>,
 }
 
 /// Error object with an identity the harness can recognise again (`Arc::ptr_eq` via data pointer).
@@ -139,6 +149,8 @@ impl Drop for CallGuard<'_> {
         let mut g = self.env.lock();
         g.depth = g.depth.saturating_sub(1);
         let th = self.th;
+        let o = g.cur_owner;
+        g.obs_own.push(o);
         g.obs.push(json!({"k":"r","th":th,"fr":"","to":"","t":"","v":0}));
     }
 }
@@ -172,8 +184,35 @@ impl Env {
                 panicked: false,
                 depth: 0,
                 max_depth: 0,
+                cur_owner: 0,
+                obs_own: vec![],
+                script_own: vec![],
+                norm: Default::default(),
+                norm_cnt: Default::default(),
+                name_owner: Default::default(),
             }),
+            cleaners: Mutex::new(vec![]),
         })
+    }
+
+    pub fn on_cleanup(&self, f: Box<dyn Fn() + Send + Sync>) {
+        self.cleaners.lock().unwrap_or_else(|e| e.into_inner()).push(f);
+    }
+
+    /// drop everything big and break reference cycles (a run's closures are otherwise never freed)
+    pub fn cleanup(&self) {
+        let cl: Vec<_> = std::mem::take(&mut *self.cleaners.lock().unwrap_or_else(|e| e.into_inner()));
+        for f in cl.iter() {
+            f();
+        }
+        let mut g = self.lock();
+        g.obs = vec![];
+        g.script = vec![];
+        g.obs_own = vec![];
+        g.script_own = vec![];
+        g.norm.clear();
+        g.name_owner.clear();
+        g.decider = Decider::Dfs { prefix: vec![], pos: 0, trail: vec![] };
     }
 
     pub fn lock(&self) -> MutexGuard<'_, Inner> {
@@ -193,13 +232,18 @@ impl Env {
         if g.depth > g.max_depth {
             g.max_depth = g.depth;
         }
+        let o = g.cur_owner;
+        g.obs_own.push(o);
         g.obs.push(json!({"k":"c","th":th,"fr":fr,"to":to,"t":t,"v":v}));
         CallGuard { env: self, th }
     }
 
     pub fn event(&self, k: &str, to: &str, t: &str, v: Value) {
         let th = cur_thread();
-        self.lock().obs.push(json!({"k":k,"th":th,"fr":"","to":to,"t":t,"v":v}));
+        let mut g = self.lock();
+        let o = g.cur_owner;
+        g.obs_own.push(o);
+        g.obs.push(json!({"k":k,"th":th,"fr":"","to":to,"t":t,"v":v}));
     }
 
     pub fn new_err(&self, id: i64) -> DynErr {
@@ -275,6 +319,8 @@ impl Env {
             },
         };
         let ch = opts[idx].to_string();
+        let o = g.cur_owner;
+        g.script_own.push(o);
         if kind == "top" {
             match ch.split_once(' ') {
                 Some((act, c)) => g.script.push(json!(["top", c, act])),
@@ -300,6 +346,30 @@ impl Env {
         }
     }
 
+    /// registers a freshly created component name (prefix + global number) for the current owner and
+    /// returns nothing; the normalised name is prefix + rank among the owner's components of that prefix
+    pub fn register_name(&self, prefix: &str, name: &str) {
+        let mut g = self.lock();
+        let o = g.cur_owner;
+        let c = g.norm_cnt.entry((o, prefix.to_string())).or_insert(0);
+        *c += 1;
+        let n = format!("{prefix}{}", *c);
+        g.norm.insert(name.to_string(), n);
+        g.name_owner.insert(name.to_string(), o);
+    }
+
+    pub fn set_owner(&self, o: usize) {
+        self.lock().cur_owner = o;
+    }
+
+    pub fn owner_of_name(&self, name: &str) -> usize {
+        let g = self.lock();
+        if let Some(k) = name.strip_prefix('K') {
+            return k.parse().unwrap_or(0);
+        }
+        g.name_owner.get(name).copied().unwrap_or(0)
+    }
+
     // ---- puppets -------------------------------------------------------------------------------
 
     pub fn add_puppet(&self, mode: PMode, late: bool) -> usize {
@@ -315,7 +385,10 @@ impl Env {
         let inst = g.pups[pup - 1].ninst;
         let name = format!("U{pup}#{inst}");
         g.insts.push(InstSt { pup, inst, name: name.clone(), ..Default::default() });
-        (g.insts.len() - 1, name)
+        let ix = g.insts.len() - 1;
+        drop(g);
+        self.register_name(&format!("U{pup}#"), &name);
+        (ix, name)
     }
 
     pub fn with_inst<R>(&self, ix: usize, f: impl FnOnce(&mut InstSt) -> R) -> R {
